@@ -148,6 +148,21 @@ def addr_set(r, src: str | None = None, dst: str | None = None) -> str:
     return f"--:------ --:------ {src}"
 
 
+_shapes: dict[str, list] = {}
+
+
+def seen_shapes() -> dict[str, list]:
+    """code -> [(verb, type0, type1, type2)] as seen in the corpus: which kinds of device really send what."""
+    if not _shapes:
+        for _dtm, body in corpus()["frames"]:
+            code = body[41:45]
+            sh = (body[4:6], body[11:13], body[21:23], body[31:33])
+            lst = _shapes.setdefault(code, [])
+            if sh not in lst:
+                lst.append(sh)
+    return _shapes
+
+
 def schema_frame(r, codes_schema: dict) -> str | None:
     """A frame whose payload is sampled from the library's own per-verb/code regex."""
     code = r.choice(sorted(codes_schema))
@@ -158,7 +173,20 @@ def schema_frame(r, codes_schema: dict) -> str | None:
     payload = sample_regex(codes_schema[code][verb], r)
     if payload is None:
         return None
-    seqn = "---" if r.random() < 0.85 else f"{r.randrange(256):03d}"
+    shapes = [sh for sh in seen_shapes().get(code, []) if sh[0] == verb]
+    if shapes and r.random() < 0.7:  # from the kind of device that really sends this verb/code
+        _v, t0, t1, t2 = r.choice(shapes)
+        ids: dict[str, str] = {}
+
+        def mk(t):
+            if t == "--":
+                return "--:------"
+            return ids.setdefault(t, dev_id(r, t))
+
+        a0, a1, a2 = mk(t0), mk(t1), mk(t2)
+        seqn_ = "---" if r.random() < 0.8 else f"{r.choice([0, 0, 1, 255, 100, r.randrange(256)]):03d}"
+        return f"{verb} {seqn_} {a0} {a1} {a2} {code} {len(payload) // 2:03d} {payload}"
+    seqn = "---" if r.random() < 0.8 else f"{r.choice([0, 0, 1, 255, 100, r.randrange(256)]):03d}"
     if verb in ("RQ", " W"):
         addrs = f"{dev_id(r, '18')} {dev_id(r)} --:------"
     elif verb == "RP":
@@ -256,3 +284,25 @@ def corrupt(line: str, r, n_edits: int | None = None) -> tuple[str, list[str]]:
             s = s + r.choice([" < a parser hint", " < {'x': 1} # and a comment", " <"])
         line = s
     return line, kinds
+
+
+EXTREME = ["00", "01", "64", "65", "C8", "C9", "7F", "80", "FE", "FF", "EF", "F0", "7E", "0B", "0C", "10"]
+
+
+def mutate_field(body: str, r, codes_schema: dict) -> str | None:
+    """A real frame with one (sometimes two) payload bytes replaced by an extreme or random value, kept only
+    if the library's own per-verb/code regex still accepts the payload: unusual-but-legal input."""
+    code, verb = body[41:45], body[4:6]
+    pl = body[50:].split(" ")[0]
+    rx = (codes_schema.get(code) or {}).get(verb)
+    if not pl or len(pl) % 2:
+        return None
+    cre = re.compile(rx) if rx else None
+    for _ in range(6):
+        q = pl
+        for _n in range(r.choice([1, 1, 1, 2])):
+            i = 2 * r.randrange(len(q) // 2)
+            q = q[:i] + (r.choice(EXTREME) if r.random() < 0.7 else f"{r.randrange(256):02X}") + q[i + 2:]
+        if q != pl and (cre is None or cre.match(q)):
+            return body[:50] + q + body[50 + len(pl):]
+    return None
